@@ -128,8 +128,10 @@ def nuts(ctx):
     # merge weight: candidate replaced only under U < n''/max(n'+n'',1)
     f6 = recu[6]
     okm = False
-    if f6[0] == 'ite' and f6[2][0] == 'ite':
-        c = f6[2][1]
+    # candidate := ite(s' && [U < weight], second subtree's, first subtree's): the selection test is the conjunct that carries the draw
+    selc = [c for c in conjuncts(f6[1]) if any(T.is_app(x) and x[1].startswith('rng_random') for x in T.subterms(c))] if f6[0] == 'ite' else []
+    if len(selc) == 1:
+        c = selc[0]
         if ordered_true_edge(c) and c[2][0] == 'poly':
             # -U + n2 * max(..)^-1 > 0
             pos = [m for m, q in c[2][1] if q[0] > 0]
@@ -139,7 +141,7 @@ def nuts(ctx):
                 n2s = [a for a in facs if a[0] == 'ite' or (T.is_app(a) and a[1] == 'proj9')]
                 mx = [a for a, e in facs.items() if T.is_app(a, 'max') and e == -1]
                 okm = len(n2s) == 1 and facs[n2s[0]] == 1 and len(mx) == 1 and mx[0][2][0] is T.ONE
-    ctx.check('C14.nuts.merge_weight', AT, 'rec.select', okm, expected='replace the candidate iff U < n\'\' / max(n\'+n\'\', 1): weight proportional to n\'\', denominator guarded against 0', found=show(f6[2][1])[:300] if f6[0] == 'ite' and f6[2][0] == 'ite' else show(f6)[:200], sp=bt['sp'],
+    ctx.check('C14.nuts.merge_weight', AT, 'rec.select', okm, expected='replace the candidate iff U < n\'\' / max(n\'+n\'\', 1): weight proportional to n\'\', denominator guarded against 0', found=show(selc[0])[:300] if len(selc) == 1 else show(f6)[:200], sp=bt['sp'],
               why='a subtree without admissible points (n\'\' = 0) can never supply the candidate; 0/0 cannot occur')
     # top level
     ev2 = ctx.evaluate(bstep, no_inline=(btkey,))
